@@ -22,7 +22,7 @@ def if_then_else(cond, truev, falsev):
         raise RuntimeError("Wrong type for if_then_else condition")
 
     if callable(truev): truev = guarded(cond)(truev)()
-    if callable(falsev): falsev = guarded(-cond)(falsev)()        
+    if callable(falsev): falsev = guarded(~cond)(falsev)()        
 
     if isinstance(truev, list):
         return [if_then_else(cond, truevi, falsevi) for (truevi,falsevi) in zip(truev,falsev)]
@@ -30,6 +30,10 @@ def if_then_else(cond, truev, falsev):
     if isinstance(truev, LinCombFxp):
         falsev = LinCombFxp._ensurefxp(falsev)
     return falsev + cond * (truev - falsev)
+
+def _not(cond):
+    # logical negation of a branch condition (LinCombBool: ~cond; 0/1-valued LinComb or int: 1-cond)
+    return ~cond if isinstance(cond, LinCombBool) else 1-cond
 
 class BranchingValues:
     def __init__(self):
@@ -90,7 +94,7 @@ class BranchContext:
 
 class IfContext(BranchContext):
     def __init__(self, cond, ctx):
-        self.icond = 1-cond # should be before super().__init__ because may be guarded
+        self.icond = _not(cond) # should be before super().__init__ because may be guarded
         super().__init__(cond, ctx)
         
     def _elif(self, nwcond):
@@ -99,7 +103,7 @@ class IfContext(BranchContext):
             
         self.exit()
         nwcond = nwcond()
-        nwicond = self.icond&(1-nwcond) # need to calculate before entering guard
+        nwicond = self.icond&_not(nwcond) # need to calculate before entering guard
         self.enter(self.icond&nwcond)
         self.icond = nwicond
         
@@ -177,7 +181,7 @@ def _endwhile(ctx=None):
     getcontext(ctx).stack.pop().end()
     
 def _breakif(cond,ctx=None):
-    getcontext(ctx).stack[-1]._while(1-cond)
+    getcontext(ctx).stack[-1]._while(_not(cond))
 
 class ObliviousIterator():
     def __init__(self, start, stop, max, ctx, checkstopmax):
